@@ -183,6 +183,9 @@ func coerceValue(ttype Input, value interface{}) interface{} {
 // TODO: change to *Schema
 func typeFromAST(schema Schema, inputTypeAST ast.Type) (Type, error) {
 	switch inputTypeAST := inputTypeAST.(type) {
+	case nil:
+		// the parser can hand back a variable definition without a type
+		return nil, nil
 	case *ast.List:
 		innerType, err := typeFromAST(schema, inputTypeAST.Type)
 		if err != nil {
